@@ -2,6 +2,7 @@
 //! on generated cases and writes `op input result` lines for the extracted Coq model to check.
 //! usage: dbg-harness <property> <seed> <quick|thorough> <shard> <nshards> <outfile>
 mod c01;
+mod c03;
 mod c07;
 mod c08;
 mod c05;
@@ -46,6 +47,7 @@ fn main() {
     match prop {
         "C01" => c01::run(&mut out, &mut rng, &tier, "C01"),
         "C02" => c01::run(&mut out, &mut rng, &tier, "C02"),
+        "C03" => c03::c03(&mut out, &mut rng, &tier),
         "C10" => kmers::c10(&mut out, &mut rng, &tier),
         "C11" => c11::c11(&mut out, &mut rng, &tier),
         "C12" => c12::c12(&mut out, &mut rng, &tier),
